@@ -8,6 +8,7 @@
 #include <stdint.h>
 #include "a/str.h"
 #include "a/utf.h"
+#include "fault.h"
 
 #define MAXL 128
 #define HUGE_M 1000000
@@ -52,7 +53,10 @@ static void put_ints(FILE *f, int const *a, int n)
 }
 static void mk(a_str *o, int const *s, int n, int mem)
 {
+    int counting = f_counting; /* the harness's own allocation is not a request of the library */
+    f_counting = 0;
     o->ptr_ = mem ? (char *)a_alloc(NULL, (a_size)mem) : NULL;
+    f_counting = counting;
     o->num_ = (a_size)n;
     o->mem_ = (a_size)mem;
     if (mem) { memset(o->ptr_, 0xEE, (size_t)mem); }
@@ -79,6 +83,92 @@ static int call_catf(a_str *o, int f)
     }
 }
 
+static long last_reqs, n_fault_runs, n_fault_edges;
+static FILE *fault_out;
+
+static int fault_edge(int const *v, long single, long from)
+{
+    int op = v[1], a1 = v[2], mem = v[5], n = v[7], n2 = v[8], nblk = v[9];
+    int const *s = v + 11, *s2 = s + n, *blk = s2 + n2;
+    a_str o, other;
+    int base_id = f_nextid;
+    long badfree0 = f_badfree;
+    mk(&o, s, n, mem);
+    int pre_after = -1;
+    if (n < mem) { o.ptr_[n] = 0; pre_after = 0; } /* a terminated string: a failed call must leave it terminated */
+    unsigned char b[MAXL + 8];
+    for (int i = 0; i < nblk; ++i) { b[i] = (unsigned char)blk[i]; }
+    b[nblk] = 0;
+    unsigned char got[MAXL + 8];
+    int ngot = 0, ret = 0;
+    char *ex = NULL;
+    a_size k = a1 == HUGE_M ? (a_size)-1 : (a_size)a1;
+    FILE *f = fault_out;
+    fprintf(f, "{\"fam\":\"str\",\"op\":\"%s\",\"a1\":%d,\"a2\":0,\"plan\":\"%s\",\"k\":%ld,\"pre\":{\"mem\":%d,\"siz\":1,\"after\":%d,\"seq\":", opn[op], a1,
+            single ? "single" : "from", single ? single : from, mem, pre_after);
+    put_ints(f, s, n);
+    fputs("},\"live0\":[", f);
+    {
+        int first = 1;
+        for (int i = 0; i < f_nlive; ++i)
+        {
+            if (f_live[i].id > base_id) { fprintf(f, first ? "%d" : ",%d", f_live[i].id); first = 0; }
+        }
+    }
+    fputs("]", f);
+    f_begin(single, from);
+#include "str_ops.inc"
+    f_end();
+    int failed = (int)f_failed, ret_fail;
+    switch (op)
+    {
+    case 1: case 2: ret_fail = ret == ~0; break;
+    case 9: ret_fail = ret <= 0; break; /* a_str_catv documents 0 on failure */
+    case 25: ret_fail = ex == NULL; break;
+    default: ret_fail = ret == 4; break;
+    }
+    fprintf(f, ",\"failed\":%d,\"reqs\":", failed);
+    f_put_log(f);
+    int pnum = (int)(o.num_ > 100000 ? 100000 : o.num_), pmem = (int)(o.mem_ > 100000 ? 100000 : o.mem_);
+    int readable = pnum <= pmem && pnum <= MAXL;
+    unsigned char pb[MAXL + 8];
+    for (int i = 0; readable && i < pnum; ++i) { pb[i] = (unsigned char)o.ptr_[i]; }
+    int after = (readable && pnum < pmem) ? (unsigned char)o.ptr_[pnum] : -1;
+    fprintf(f, ",\"fail\":{\"ret_fail\":%d,\"num\":%d,\"mem\":%d,\"siz\":1,\"after\":%d,\"seq\":", ret_fail, readable ? pnum : -1, pmem, after);
+    put_bytes(f, pb, readable ? pnum : 0);
+    /* retry with a healthy allocator */
+    ret = 0; ex = NULL; ngot = 0;
+    f_begin(0, 0);
+#include "str_ops.inc"
+    f_end();
+    int retry_ok;
+    switch (op)
+    {
+    case 1: case 2: retry_ok = ret != ~0; break;
+    case 9: retry_ok = ret >= 0; break;
+    case 25: retry_ok = ex != NULL; break;
+    default: retry_ok = ret == 0; break;
+    }
+    pnum = (int)(o.num_ > 100000 ? 100000 : o.num_); pmem = (int)(o.mem_ > 100000 ? 100000 : o.mem_);
+    readable = pnum <= pmem && pnum <= MAXL;
+    for (int i = 0; readable && i < pnum; ++i) { pb[i] = (unsigned char)o.ptr_[i]; }
+    fprintf(f, "},\"retry\":{\"ok\":%d,\"num\":%d,\"mem\":%d,\"seq\":", retry_ok, readable ? pnum : -1, pmem);
+    put_bytes(f, pb, readable ? pnum : 0);
+    fputs("},\"expected\":", f);
+    put_ints(f, s2, n2);
+    a_str_dtor(&o);
+    fputs(",\"leak\":[", f);
+    int first = 1;
+    for (int i = 0; i < f_nlive; ++i)
+    {
+        if (f_live[i].id > base_id) { fprintf(f, first ? "%d" : ",%d", f_live[i].id); first = 0; }
+    }
+    fprintf(f, "],\"badfree\":%ld}\n", f_badfree - badfree0);
+    (void)k; (void)got; (void)ngot; (void)other;
+    ++n_fault_runs;
+    return 0;
+}
+
 static int run_edge(int const *v, int nv, FILE *fo)
 {
     int op = v[1], a1 = v[2], eret = v[3], term = v[4], mem = v[5], mem2 = v[6], n = v[7], n2 = v[8], nblk = v[9], nout = v[10];
@@ -95,52 +185,10 @@ static int run_edge(int const *v, int nv, FILE *fo)
     int ngot = 0, ret = 0;
     char *ex = NULL;
     a_size k = a1 == HUGE_M ? (a_size)-1 : (a_size)a1;
-    switch (op)
-    {
-    case 1: ret = a_str_catc(&o, blk[0]); break;
-    case 2: ret = a_str_catc_(&o, blk[0]); break;
-    case 3: ret = a_str_catn(&o, b, (a_size)nblk); break;
-    case 4: ret = a_str_catn_(&o, b, (a_size)nblk); break;
-    case 5: ret = a_str_cats(&o, b); break;
-    case 6: ret = a_str_cats_(&o, b); break;
-    case 7:
-    case 8:
-    case 28:
-        mk(&other, blk, nblk, nblk ? ((nblk + 7) / 8) * 8 : 0);
-        ret = op == 7 ? a_str_cat(&o, &other) : op == 8 ? a_str_cat_(&o, &other) : sgn(a_str_cmp(&o, &other));
-        a_str_dtor(&other);
-        break;
-    case 9: ret = call_catf(&o, a1); break;
-    case 10: ret = a_utf_catc(&o, (a_u32)a1); break;
-    case 11: ret = a_str_getc(&o); break;
-    case 12: ret = a_str_getc_(&o); break;
-    case 13: ret = (int)a_str_getn(&o, got, k); ngot = ret; break;
-    case 14: ret = (int)a_str_getn_(&o, got, k); ngot = ret; break;
-    case 15: a_str_rtrim(&o, (char const *)b, (a_size)nblk); break;
-    case 16: a_str_rtrim_(&o, (char const *)b, (a_size)nblk); break;
-    case 17: a_str_ltrim(&o, (char const *)b, (a_size)nblk); break;
-    case 18: a_str_ltrim_(&o, (char const *)b, (a_size)nblk); break;
-    case 19: a_str_trim(&o, (char const *)b, (a_size)nblk); break;
-    case 20: a_str_trim_(&o, (char const *)b, (a_size)nblk); break;
-    case 21: ret = a_str_setn(&o, (a_size)a1); break;
-    case 22: a_str_setn_(&o, (a_size)a1); break;
-    case 23: ret = a_str_setm(&o, (a_size)a1); break;
-    case 24: ret = a_str_setm_(&o, (a_size)a1); break;
-    case 25:
-        ex = a_str_exit(&o);
-        ret = ex != NULL;
-        if (ex)
-        {
-            /* the handed-over buffer is a C string holding the content */
-            ngot = n;
-            memcpy(got, ex, (size_t)n);
-            if (ex[n] != 0) { ngot = -1; }
-            a_alloc(ex, 0);
-        }
-        break;
-    case 26: ret = sgn(a_str_cmpn(&o, b, (a_size)nblk)); break;
-    case 27: ret = sgn(a_str_cmps(&o, b)); break;
-    }
+    f_begin(0, 0);
+#include "str_ops.inc"
+    f_end();
+    last_reqs = f_req;
     if ((op == 21 || op == 22) && ret == 0 && (int)o.num_ > n && o.num_ <= o.mem_)
     {
         for (int i = n; i < (int)o.num_; ++i) { o.ptr_[i] = 'z'; }
@@ -193,6 +241,12 @@ int main(int argc, char **argv)
 {
     if (argc < 5 || strcmp(argv[1], "edges")) { fprintf(stderr, "usage: %s edges <tlc-output> <out-prefix> <batches> [skip]\n", argv[0]); return 2; }
     __sanitizer_set_death_callback(on_death);
+    f_install();
+    if (argc > 6)
+    {
+        fault_out = fopen(argv[6], skip_until ? "a" : "w");
+        if (!fault_out) { perror(argv[6]); return 3; }
+    }
     if (argc > 5) { skip_until = atol(argv[5]); }
     FILE *fi = fopen(argv[2], "r");
     if (!fi) { perror(argv[2]); return 3; }
@@ -216,8 +270,20 @@ int main(int argc, char **argv)
         if (n_edges <= skip_until) { continue; }
         int rc = run_edge(v, n, fo[(n_edges / 1024) % nb]);
         if (rc) { return rc; }
+        if (fault_out && last_reqs > 0)
+        {
+            long R = last_reqs;
+            ++n_fault_edges;
+            for (long k = 1; k <= R; ++k)
+            {
+                if ((rc = fault_edge(v, k, 0)) != 0) { return rc; }
+                if (k < R && (rc = fault_edge(v, 0, k)) != 0) { return rc; }
+            }
+        }
     }
     for (int i = 0; i < nb; ++i) { fclose(fo[i]); }
+    if (fault_out) { fclose(fault_out); }
+    printf("FAULTS {\"edges\":%ld,\"runs\":%ld}\n", n_fault_edges, n_fault_runs);
     printf("SUMMARY {\"edges\":%ld,\"events\":%ld,\"mismatch\":%ld,\"drift\":%ld,\"nontrivial\":%ld,\"ops\":[", n_edges, n_events, n_mismatch, n_drift, n_nontrivial);
     for (int i = 0; i < 29; ++i) { printf(i ? ",%ld" : "%ld", op_cnt[i]); }
     printf("]}\n");
